@@ -168,6 +168,12 @@ def _guards(b, err_only=True):
                 if any("debug_assert" in m for m in d[2].get("mac", [])):
                     continue
                 is_cmp = True
+        if not is_cmp:
+            # the checked form of a slice access: `data.get(a..b)` answers None when the range is out of bounds, and the
+            # branch on that Option is the guard
+            for x in b.origins(t["op"], through_calls=False):
+                if x[0] == "call" and call_is(b.term(x[1]), r"slice::<impl \[.*\]>::get(_mut)?::<", r"<impl \[.*\]>::get(_mut)?$"):
+                    is_cmp = True
         if not is_cmp and op_place(t["op"]) is not None and op_place(t["op"]).get("p"):
             # the verdict of the comparison travels in a tuple: `match (kind, end.is_valid(size)) { (_, false) => Err.. }`
             for x in b.origins(t["op"], through_calls=False):
@@ -191,7 +197,7 @@ def _cell(cx, rule, key, f, what):
     covering = None
     for g in gs:
         t = b.term(g)
-        arms = list(dict.fromkeys(t["targets"] + [t["otherwise"]]))
+        arms = [a for a in dict.fromkeys(t["targets"] + [t["otherwise"]]) if b.term(a)["k"] != "unreachable"]
         if len(arms) != 2:
             continue
         for good in arms:
